@@ -439,6 +439,96 @@ def cooperative_gp(h: Harness, rng):
                     f"{desc}: the program returned for species {which} is not well-typed for grammar {which}: {repr(p)[:160]}", [rounds, n1, n2, which])
 
 
+def warm_started_searches(h: Harness, rng):
+    """a search warm-started from seeds of every form the wrapper accepts -- raw programs, individuals of the representation the search
+    uses, individuals of ANOTHER representation object over the same grammar (the result of an earlier run): every program the fitness
+    function is handed and the program search() returns are programs of the grammar"""
+    from props import steps_common as sc
+    from geneticengine.algorithms.gp.gp import GeneticProgramming
+    from geneticengine.evaluation.budget import EvaluationBudget
+    from geneticengine.grammar.grammar import extract_grammar
+    from geneticengine.problems import SingleObjectiveProblem
+    from geneticengine.random.sources import NativeRandomSource
+    from geneticengine.representations.tree.operators import GrowInitializer, InjectInitialPopulationWrapper
+    from geneticengine.representations.tree.treebased import TreeBasedRepresentation
+    from geneticengine.solutions.individual import Individual
+    g = extract_grammar([sc.Leaf, sc.Node], sc.Root)
+    _, b = gram.reflect([sc.Leaf, sc.Node], sc.Root)
+    line = gram.spec_sx(b.spec)
+    for form in ("raw programs", "individuals of this representation", "individuals of another representation object", "a mixture"):
+        r = NativeRandomSource(rng.randrange(10**6))
+        rep = TreeBasedRepresentation(g, synth.make_decider("grow", 4, r, g))
+        other = TreeBasedRepresentation(g, synth.make_decider("grow", 4, r, g))
+        raw = [other.create_genotype(r) for _ in range(5)]
+        seeds = {"raw programs": raw, "individuals of this representation": [Individual(p, rep) for p in raw],
+                 "individuals of another representation object": [Individual(p, other) for p in raw],
+                 "a mixture": [raw[0], Individual(raw[1], other), Individual(raw[2], rep), raw[3], Individual(raw[4], other)]}[form]
+        bad = []
+
+        def ff(p, bad=bad):
+            if not isinstance(p, sc.Root) and len(bad) < 3:
+                bad.append(repr(p)[:100])
+            return float(len(repr(p)))
+        problem = SingleObjectiveProblem(ff, minimize=False)
+        desc = f"GeneticProgramming warm-started from {len(seeds)} seeds given as {form}"
+        try:
+            best = GeneticProgramming(problem, EvaluationBudget(30), rep, random=r, population_size=8,
+                                      population_initializer=InjectInitialPopulationWrapper(seeds, GrowInitializer())).search()
+        except Exception as e:  # noqa: BLE001
+            h.fail("InjectInitialPopulationWrapper.initialize", "foreign-error", f"{desc}: {type(e).__name__}: {e}"[:300], [form])
+            continue
+        h.count("warm-started-searches")
+        h.seen(f"warm-start:{form}", nontrivial=True)
+        if bad:
+            h.fail("InjectInitialPopulationWrapper.initialize", "ill-typed-program",
+                   f"{desc}: the fitness function was handed {bad[0]}, which is not a program of the grammar ({len(bad)}+ such calls)", [form])
+            continue
+        p = best.get_phenotype()
+        if not isinstance(p, sc.Root):
+            h.fail("GeneticProgramming.search", "ill-typed-program", f"{desc}: search() returned {repr(p)[:100]}, which is not a program of the grammar", [form])
+            continue
+        h.holds("GeneticProgramming.search", "ill-typed-program", ["prop_wt", line, gram.canon(p, b)],
+                f"{desc}: the returned program is not well-typed: {repr(p)[:160]}", [form])
+
+
+def handed_down_values_typed(h: Harness, rng):
+    """values handed down to a child through `initial_values` land in the field they are named for, wherever that field stands among
+    the constructor's parameters: every field of every program holds a value of its declared type, in every representation"""
+    import ctxgrammar
+    from linear import DSGE, GE, SGE, safe
+    from geneticengine.random.sources import NativeRandomSource
+    from geneticengine.representations.tree.treebased import TreeBasedRepresentation
+    g = ctxgrammar.levels_grammar()
+    for trial in range(h.n(6, 40)):
+        r = NativeRandomSource(rng.randrange(10**6))
+        reps = [("tree", TreeBasedRepresentation(g, synth.make_decider("grow", 6, r, g))), ("GE", GE(g, synth.make_decider("grow", 6, r, g), gene_length=64)),
+                ("SGE", SGE(g, synth.make_decider("grow", 6, r, g), gene_length=64)), ("DynamicSGE", DSGE(g, 6))]
+        for name, rep in reps:
+            genos = []
+            for _ in range(3):
+                st, a = safe(lambda: rep.create_genotype(r))
+                if st == "ok":
+                    genos.append(a)
+            if len(genos) >= 2:
+                st, m = safe(lambda: rep.mutate(r, genos[0]))
+                if st == "ok":
+                    genos.append(m)
+                st, cs = safe(lambda: rep.crossover(r, genos[0], genos[1]))
+                if st == "ok":
+                    genos += list(cs)
+            for geno in genos:
+                st, p = safe(lambda: rep.genotype_to_phenotype(geno))
+                if st != "ok":
+                    continue
+                h.count(f"handed-down-values-typed:{name}")
+                h.seen(f"levels-typed:{name}:{repr(p)[:70]}", nontrivial="LTail" in repr(p) or "LNest" in repr(p))
+                bad = ctxgrammar.level_type_errors(p)
+                if bad:
+                    site = f"{name}.genotype_to_phenotype" if name != "tree" else "TreeBasedRepresentation.create_genotype"
+                    h.fail(site, "ill-typed-program", f"{bad[0]} ({len(bad)} such fields) in {repr(p)[:160]}", [name, trial])
+                    break
+
+
 def dsge_wrapped_union_keys(h: Harness, rng):
     """dynamic SGE keeps one gene list per symbol it expanded, Union types included; on grammars whose unions have wrapped / refined
     alternatives (the key then mentions a refinement object) every mapped genotype can still be mutated and crossed over, and the
@@ -593,6 +683,8 @@ def run(h: Harness):
     int_literal_float_bounds(h, rng)
     boundary_genes(h, rng)
     cooperative_gp(h, rng)
+    warm_started_searches(h, rng)
+    handed_down_values_typed(h, rng)
     dsge_wrapped_union_keys(h, rng)
     stack_wrapped_fields(h, rng)
     postponed_annotations(h, rng)
